@@ -11,7 +11,7 @@ EXPLANATION = ("B1 identifier octet - the writer composes "
                "parser returns the slice after the announced length as remainder in both the primitive and the constructed arm, and the "
                "encoder leaves in its output buffer, on every path, what the buffer held before, the identifier octets of (class, structure of the payload, id), "
                "length octets and the content - the payload octets, resp. the encodings of the children in order -, read off the final buffer (a rope of "
-               "segments with positions as formal sums of segment lengths, rules/rope.py), so it does not matter whether the length is written before the content or a "
+               "segments with positions as formal sums of segment lengths, rules/rope.py; a length that is computed by a sizing pass instead of measured - the sum of SZ(child) - is accepted iff SZ(t) = octets appended for t, proved by induction over the tree with the identifier / length octet counts predicted vs written decided on the threshold partition: B4.encoder-sizing), so it does not matter whether the length is written before the content or a "
                "placeholder is patched / replaced / inserted afterwards; the length octets are write_length(L), constants or L's low octet with L formally the content length, "
                "and are evaluated at every change point of the partition induced by the branch conditions on L and by write_length's own against the minimal definite form; B7 the TLV parser's children loop ends only when the content is used up, keeps every child and continues with its remainder, and every error path is the failure of one of its primitives or the nesting bound; B2m/B5 the two arithmetic functions - "
                "write_length and the INTEGER/ENUMERATED content encoder - are functions of one integer whose every branch condition is a "
